@@ -561,6 +561,15 @@ def _oracle_C03(case, **opts):
 BACKENDS = ("pandas", "sqlite", "pg", "polars")
 
 
+def _select_defines_order(ops):
+    """the column order of the result is defined by a select_columns: the last step, or followed only by steps that
+    keep the columns as they are (order_rows, select_rows)"""
+    n = ops
+    while n.node_name in ("OrderRowsNode", "SelectRowsNode"):
+        n = n.sources[0]
+    return n.node_name == "SelectColumnsNode"
+
+
 def oracle_C08(case, **opts):
     """set(result.columns) == set(ops.column_names) and no duplicates, per backend; list equality after a final
     select_columns; the same with every input table emptied"""
@@ -585,7 +594,7 @@ def oracle_C08(case, **opts):
                 if any(c.endswith("_tmp_right_col") for c in cols):
                     cand = "N19-pandas-join-key-also-right-column-leaks-scratch"
                 fails.append(fail(f"C08:{be}-column-set", f"{be}{tag}: result {cols} declared {declared}", None, cand))
-            elif cx.ops.node_name == "SelectColumnsNode" and cols != declared:
+            elif _select_defines_order(cx.ops) and cols != declared:
                 fails.append(fail(f"C08:{be}-select-order", f"{be}{tag}: result {cols} declared {declared}"))
     return fails
 
